@@ -233,8 +233,8 @@ fn tz_instants(tz: Tz) -> Vec<(String, DateTime<Tz>)> {
 /// Run the whole battery on one expression text. `level`: 0 = naive contexts only,
 /// 1 = + time zones and coordinates (bounded), 2 = + unbounded calls in time-zone contexts.
 pub fn evaluate(text: &str, level: u8, base_budget: i64, sweep_step: i64, acc: &mut Acc) -> u64 {
-    // base_budget == 0: no unbounded long-horizon call at all for this expression (quick tier,
-    // 7 expressions out of 8): one such call can cost 2.9 M schedules whatever the budget
+    // base_budget == 0: no unbounded long-horizon call at all for this expression (7 expressions out of 8 in the
+    // quick tier, 3 out of 4 in the thorough tier): one such call can cost 2.9 M schedules whatever the budget
     let Ok(Ok(oh)) = catch(|| OpeningHours::parse(text)) else { return 0 };
     let mut calls = 0u64;
     let mut budget: i64 = if level >= 2 { base_budget * 8 } else { base_budget };
@@ -492,7 +492,7 @@ pub fn run(cfg: &Cfg) -> Outcome {
             } else {
                 0
             };
-            let budget = if !cfg.quick() { 12_000_000 } else if level >= 2 || i % 8 == 0 { 800_000 } else { 0 };
+            let budget = if level >= 2 || i % (if cfg.quick() { 8 } else { 4 }) == 0 { if cfg.quick() { 800_000 } else { 6_000_000 } } else { 0 };
             let calls = evaluate(s, level, budget, if cfg.quick() { 29 } else { 1 }, &mut acc);
             acc.add("api_calls", calls);
             acc
